@@ -382,6 +382,29 @@ func Lock(m locker) {
 		}
 		schedSwitch(true)
 	}
+	if tryLockSeen {
+		schedSwitch(false) // somebody uses TryLock: "inside the critical section" must be observable
+	}
+}
+
+// tryLockSeen: the code under replay calls TryLock / TryRLock somewhere.
+var tryLockSeen bool
+
+// TryLock / TryRLock are what the replay overlay turns x.mu.TryLock() / TryRLock() into.
+func TryLock(m locker) bool {
+	if Scheduled && registered() {
+		tryLockSeen = true
+		schedSwitch(false)
+	}
+	return m.TryLock()
+}
+
+func TryRLock(m rlocker) bool {
+	if Scheduled && registered() {
+		tryLockSeen = true
+		schedSwitch(false)
+	}
+	return m.TryRLock()
 }
 
 // RLock is what the replay overlay turns `x.RLock()` statements into.
@@ -396,6 +419,9 @@ func RLock(m rlocker) {
 			panic("verifrt: scheduled replay spun on a mutex nobody releases (deadlock)")
 		}
 		schedSwitch(true)
+	}
+	if tryLockSeen {
+		schedSwitch(false)
 	}
 }
 
